@@ -96,22 +96,75 @@ def random_profile(rng, depth, chems=(), current='random', background='random', 
     return spec
 
 
-def build_profile(spec):
-    from tamoc import ambient
+def _snapped_nodes(cur, grid):
+    """current nodes with their depths moved to the nearest node of the cast, so that the appended data are linear
+    between the nodes of the Profile's depth axis (Profile.append interpolates new data onto that axis)"""
+    nodes = np.array(cur['nodes'], dtype=float)
+    nodes[:, 0] = [grid[int(np.argmin(np.abs(grid - z)))] for z in nodes[:, 0]]
+    keep = [0] + [k for k in range(1, len(nodes)) if nodes[k, 0] > nodes[k - 1, 0]]
+    return nodes[keep]
+
+
+def _add_to_table(tab, spec_part, H):
+    """the harness's own raw data for currents / backgrounds, on the depth nodes of the cast"""
+    z = tab['z']
+    if spec_part.get('current'):
+        nodes = _snapped_nodes(spec_part['current'], z)
+        names = ['ua', 'va'] + (['wa'] if spec_part['current'].get('wa') else [])
+        for j, nm in enumerate(names):
+            tab[nm] = np.interp(z, nodes[:, 0], nodes[:, 1 + j])
+    for ch, (c_top, c_bot) in spec_part.get('background', {}).items():
+        tab[ch] = c_top + (c_bot - c_top) * z / H
+
+
+def profile_table(spec):
+    """RAW TABLE of a profile spec, computed by the harness from the spec's closed forms only: depth nodes
+    linspace(0, H, n), temperature and salinity shapes, hydrostatic pressure (own trapezoidal integration with
+    seawater.density), currents (piecewise linear through the nodes), backgrounds (linear surface -> bottom).  This
+    table, not the Profile object, is the reference for every ambient value a check uses: see `table_value`."""
+    from tamoc import seawater
     H, n = spec['H'], spec['n']
     z = np.linspace(0., H, n)
     T = spec['Tbot'] + (spec['Tsurf'] - spec['Tbot']) * np.exp(-z / spec['zT'])
     S = spec['S0'] + spec['dS'] * (1. - np.exp(-z / spec['zS']))
-    data = np.vstack((z, T, S)).T
+    P = np.zeros(n)
+    P[0] = 101325.
+    for k in range(1, n):
+        r0 = float(seawater.density(float(T[k - 1]), float(S[k - 1]), float(P[k - 1])))
+        P1 = P[k - 1] + 9.81 * r0 * (z[k] - z[k - 1])
+        r1 = float(seawater.density(float(T[k]), float(S[k]), float(P1)))
+        P[k] = P[k - 1] + 9.81 * 0.5 * (r0 + r1) * (z[k] - z[k - 1])
+    tab = {'z': z, 'temperature': T, 'salinity': S, 'pressure': P}
+    _add_to_table(tab, spec, H)
+    return tab
+
+
+def table_value(tab, z, name):
+    """linear interpolation of variable `name` of the harness's raw table at depth z, clamped to the table; 0 for a
+    variable the table lacks (what tamoc documents for unknown names)"""
+    if name not in tab:
+        return 0.
+    zz = min(max(float(z), float(tab['z'][0])), float(tab['z'][-1]))
+    return float(np.interp(zz, tab['z'], tab[name]))
+
+
+def build_profile(spec):
+    """real ambient.Profile from the raw table (z, T, S, P handed in; currents / backgrounds appended).  Built with
+    err=0 and stabilize_profile=False so that the object interpolates exactly the nodes it was given (the generated
+    casts are stably stratified).  The harness's raw table travels with the object as `verif_table`."""
+    from tamoc import ambient
+    tab = profile_table(spec)
+    H = spec['H']
+    data = np.vstack((tab['z'], tab['temperature'], tab['salinity'], tab['pressure'])).T
     prf = ambient.Profile(data, ztsp=['z', 'temperature', 'salinity', 'pressure'],
-                          ztsp_units=['m', 'K', 'psu', 'Pa'])
+                          ztsp_units=['m', 'K', 'psu', 'Pa'], err=0., stabilize_profile=False)
     if spec.get('current'):
-        nodes = np.array(spec['current']['nodes'], dtype=float)
+        nodes = _snapped_nodes(spec['current'], tab['z'])
         names = ['z', 'ua', 'va'] + (['wa'] if spec['current'].get('wa') else [])
-        cols = nodes[:, :len(names)]
-        prf.append(cols, names, ['m'] + ['m/s'] * (len(names) - 1), z_col=0)
+        prf.append(nodes[:, :len(names)], names, ['m'] + ['m/s'] * (len(names) - 1), z_col=0)
     for ch, (c_top, c_bot) in spec.get('background', {}).items():
         prf.append(np.array([[0., c_top], [H, c_bot]]), ['z', ch], ['m', 'kg/m^3'], z_col=0)
+    prf.verif_table = tab
     return prf
 
 
@@ -206,13 +259,16 @@ def split_profile(rng, scn):
 
 
 def append_later(prf, later):
-    """stage 2: append the withheld currents / background concentrations to the SAME Profile object"""
+    """stage 2: append the withheld currents / background concentrations to the SAME Profile object (and, separately,
+    to the harness's raw table)"""
+    tab = prf.verif_table
     if later.get('current'):
-        nodes = np.array(later['current']['nodes'], dtype=float)
+        nodes = _snapped_nodes(later['current'], tab['z'])
         names = ['z', 'ua', 'va'] + (['wa'] if later['current'].get('wa') else [])
         prf.append(nodes[:, :len(names)], names, ['m'] + ['m/s'] * (len(names) - 1), z_col=0)
     for ch, (c_top, c_bot) in later.get('background', {}).items():
         prf.append(np.array([[0., c_top], [later['H'], c_bot]]), ['z', ch], ['m', 'kg/m^3'], z_col=0)
+    _add_to_table(tab, later, later['H'])
 
 
 def build_dbm(sp):
